@@ -6,8 +6,9 @@ import ref_runtime as rr
 
 # tags compared (the projection of section 5.3 of DESIGN.md), monitor, non-triviality rule
 PROPS = {
-    'C11': dict(bundle='builder', tags=['B', 'E'], kinds=['B'], monitor=rb.mon_c11,
-                tagproj={'E': lambda v: ' '.join(sorted(v.split()))},     # the property does not fix the order of the edge list
+    'C11': dict(bundle='builder', tags=['B', 'E', 'R', 'TN'], kinds=['B'], monitor=rb.mon_c11,
+                tagproj={'E': lambda v: ' '.join(sorted(v.split())),     # the property does not fix the order of the edge list
+                         'R': lambda v: ' '.join(t for t in v.split() if t.startswith('f')) or '-'},   # ids returned by add_fn / add_fns
                 nontrivial=lambda c: 'D' in c.obs.get('E', '') or c.obs.get('B') == 'P',
                 rule='builder cases (exhaustive n<=3 x access patterns, all edge subsets n=4, random n<=12, wide, layered); non-trivial = the built graph contains at least one Data edge; distinct = distinct call sequence',
                 exhaustive_scope='exh3: every subset of the 6 ordered pairs on 3 nodes x {none,R,W}^3 x 2 insertion orders; exh4: every subset of the 12 ordered pairs on 4 nodes x 2 orders (one access pattern each)',
